@@ -747,3 +747,190 @@ Proof.
       * discriminate.
   - discriminate.
 Qed.
+
+(* ------------------------------------------------------------------ the not_ready_yet memo (fix 9baed24) *)
+Lemma eval_deps_ext rec1 rec2 deps : forall acc st,
+  (forall s d, rec1 s d = rec2 s d) -> eval_deps rec1 deps acc st = eval_deps rec2 deps acc st.
+Proof.
+  induction deps as [|d ds IH]; intros acc st H; simpl; auto.
+  rewrite <- (H st d). destruct (rec1 st d); auto.
+Qed.
+
+(* a real evaluation (try_compute.depth = 0) neither reads nor writes the memo *)
+Lemma memo_real_unaffected bound bound2 isp G : forall fuel st seen p i,
+  wait_top true bound bound2 isp false G fuel st seen p i = wait_top false bound bound2 isp false G fuel st seen p i.
+Proof.
+  induction fuel as [|f IH]; intros st seen p i; simpl; auto.
+Qed.
+
+Lemma eval_deps_val_transfer rec1 rec2 deps : forall acc st vals st',
+  (forall s d z s', rec1 s d = RVal z s' -> rec2 s d = RVal z s') ->
+  eval_deps rec1 deps acc st = DDone vals st' -> eval_deps rec2 deps acc st = DDone vals st'.
+Proof.
+  induction deps as [|d ds IH]; intros acc st vals st' H E; simpl in *; auto.
+  destruct (rec1 st d) as [z s1|e s1|] eqn:E1; try discriminate.
+  rewrite (H _ _ _ _ E1). eapply IH; eauto.
+Qed.
+
+(* whenever the memoised evaluation yields a value, the memo was never hit on the way: the evaluation without the
+   memo takes exactly the same steps and ends with the same value in the same state *)
+Lemma memo_only_postpones_lemma bound bound2 isp spec G : forall fuel st seen p i z st',
+  wait_top true bound bound2 isp spec G fuel st seen p i = RVal z st' ->
+  wait_top false bound bound2 isp spec G fuel st seen p i = RVal z st'.
+Proof.
+  induction fuel as [|f IH]; intros st seen p i z st' H; simpl in *; [discriminate|].
+  destruct (nth_error G i) as [nd|]; [|discriminate].
+  destruct (stop_check bound bound2 seen p i); [discriminate|].
+  destruct (memo_hit true spec st i); [discriminate|].
+  unfold memo_hit. simpl.
+  destruct (is_await st i); [discriminate|].
+  destruct nd as [v|deps g|].
+  - destruct v as [z0|j]; [exact H|]. apply IH. exact H.
+  - destruct (get_settled (set_await st i true) i) as [v|].
+    + destruct v as [z0|j]; [exact H|]. apply IH. exact H.
+    + destruct (eval_deps (fun s d => wait_top true bound bound2 isp spec G f s [] 0 d) deps [] (set_await st i true))
+        as [vals s2|e s2|] eqn:Ed; try discriminate.
+      rewrite (eval_deps_val_transfer _ (fun s d => wait_top false bound bound2 isp spec G f s [] 0 d) _ _ _ _ _
+                 (fun s d z1 s1 E => IH s [] 0 d z1 s1 E) Ed).
+      destruct (g vals) as [z0|j]; [exact H|]. apply IH. exact H.
+  - discriminate.
+Qed.
+
+Section MemoSafe.
+  Variables (G : graph) (um : bool) (bound bound2 : nat) (isp : nat -> bool) (spec : bool).
+
+  (* what the memo claims: the remembered objects have no value (their evaluation runs into an unsettled promise) *)
+  Definition memo_novalue (st : state) : Prop := forall k, is_memo st k = true -> forall z, ~ value_of G k z.
+  Definition msafe (st : state) : Prop := settled_sound G st /\ memo_novalue st.
+
+  Lemma values_of_In deps vals d : values_of G deps vals -> In d deps -> exists z, value_of G d z.
+  Proof. intros H. induction H; intros I; [destruct I|]. destruct I as [->|I]; eauto. Qed.
+
+  Lemma memo_novalue_await st k b : memo_novalue st -> memo_novalue (set_await st k b).
+  Proof. intros H; exact H. Qed.
+  Lemma memo_novalue_settled st k v : memo_novalue st -> memo_novalue (set_settled st k v).
+  Proof. intros H; exact H. Qed.
+
+  Lemma memo_novalue_rec e st i :
+    memo_novalue st -> (e = ENotReady -> forall z, ~ value_of G i z) -> memo_novalue (memo_rec um spec e st i).
+  Proof.
+    intros H Hi. unfold memo_rec. destruct (um && spec && is_nr e) eqn:E; [|exact H].
+    assert (e = ENotReady) by (destruct e; simpl in E; rewrite ?andb_false_r in E; try discriminate; reflexivity).
+    intros k Hk. unfold is_memo, set_memo in Hk. simpl in Hk.
+    destruct (nth_set_nth_cases (memo st) i k true false) as [[E1 E2]|E2].
+    - subst k. apply Hi. assumption.
+    - rewrite E2 in Hk. apply H. exact Hk.
+  Qed.
+
+  Definition nr_res (i : nat) (r : res) : Prop :=
+    match r with
+    | RRaise ENotReady st' => (forall z, ~ value_of G i z) /\ msafe st'
+    | RRaise _ st' | RVal _ st' => msafe st'
+    | RFuel => True
+    end.
+
+  Lemma eval_deps_nr rec deps : forall done acc st,
+    (forall s d, msafe s -> nr_res d (rec s d)) ->
+    (forall s d, settled_sound G s -> sound_res G d (rec s d)) ->
+    msafe st -> values_of G done (rev acc) ->
+    match eval_deps rec deps acc st with
+    | DDone vals st' => values_of G (done ++ deps) vals /\ msafe st'
+    | DRaise ENotReady st' => (exists d, In d deps /\ forall z, ~ value_of G d z) /\ msafe st'
+    | DRaise _ st' => msafe st'
+    | DFuel => True
+    end.
+  Proof.
+    induction deps as [|d ds IH]; intros done acc st H S M V; simpl.
+    - rewrite app_nil_r. auto.
+    - pose proof (H st d M) as Hd. pose proof (S st d (proj1 M)) as Sd.
+      destruct (rec st d) as [z s'|e s'|]; simpl in Hd, Sd; auto.
+      + destruct Sd as [Hv _].
+        assert (V' : values_of G (done ++ [d]) (rev (z :: acc))).
+        { simpl. apply values_of_app; [exact V|]. constructor; [exact Hv|constructor]. }
+        specialize (IH (done ++ [d]) (z :: acc) s' H S Hd V').
+        rewrite <- app_assoc in IH. simpl in IH.
+        destruct (eval_deps rec ds (z :: acc) s') as [vals s2|[| |] s2|]; auto.
+        destruct IH as [[d' [I1 I2]] I3]. split; [exists d'; split; [right; exact I1|exact I2]|exact I3].
+      + destruct e; auto. destruct Hd as [Hn Hm]. split; [exists d; split; [left; reflexivity|exact Hn]|exact Hm].
+  Qed.
+
+  Lemma wait_top_nr : forall fuel st seen p i,
+    msafe st -> nr_res i (wait_top um bound bound2 isp spec G fuel st seen p i).
+  Proof.
+    induction fuel as [|f IH]; intros st seen p i [Ss Mm]; simpl; auto.
+    destruct (nth_error G i) as [nd|] eqn:En; simpl; [|split; assumption].
+    destruct (stop_check bound bound2 seen p i); simpl; [split; assumption|].
+    destruct (memo_hit um spec st i) eqn:Mh; simpl.
+    { split; [|split; assumption]. unfold memo_hit in Mh. apply andb_prop in Mh. destruct Mh as [_ Mh]. apply Mm. exact Mh. }
+    destruct (is_await st i); simpl; [split; assumption|].
+    (* continuing with the yielded value v, where v is what node i yields in every derivation of a value of i *)
+    assert (K : forall v s, msafe s ->
+              (forall j, v = NFwd j -> forall z, value_of G i z -> value_of G j z) ->
+              nr_res i match v with
+                       | NVal z => RVal z (set_await s i false)
+                       | NFwd j => wait_top um bound bound2 isp spec G f (set_await s i false) (i :: seen) (next_p isp p i j) j end).
+    { intros [z|j] s Ms Hj; simpl; [exact Ms|].
+      pose proof (IH (set_await s i false) (i :: seen) (next_p isp p i j) j Ms) as R.
+      destruct (wait_top um bound bound2 isp spec G f (set_await s i false) (i :: seen) (next_p isp p i j) j) as [z s'|[| |] s'|]; simpl in *; auto.
+      destruct R as [R1 R2]. split; [|exact R2]. intros z Hz. apply (R1 z). eapply Hj; eauto. }
+    assert (Kfn : forall deps g vals, nth_error G i = Some (NFn deps g) -> values_of G deps vals ->
+              forall j, g vals = NFwd j -> forall z, value_of G i z -> value_of G j z).
+    { intros deps g vals E Hv j Eg z Hz. inversion Hz; subst; try congruence.
+      - assert (deps0 = deps /\ g0 = g) as [? ?] by (split; congruence). subst.
+        rewrite (proj2 (value_unique_both G) _ _ H0 _ Hv) in H1. congruence.
+      - assert (deps0 = deps /\ g0 = g) as [? ?] by (split; congruence). subst.
+        rewrite (proj2 (value_unique_both G) _ _ H0 _ Hv) in H1. assert (j0 = j) by congruence. subst. assumption. }
+    destruct nd as [v|deps g|].
+    - apply K; [split; assumption|]. intros j E z Hz. subst v. inversion Hz; subst; try congruence.
+    - destruct (get_settled (set_await st i true) i) as [v|] eqn:Eg.
+      + destruct (Ss i v Eg) as (deps' & g' & vals & E1 & E2 & E3).
+        assert (deps' = deps /\ g' = g) as [? ?] by (split; congruence). subst deps' g'.
+        apply K; [split; assumption|]. intros j E. subst v. eapply Kfn; eauto.
+      + pose proof (eval_deps_nr (fun s d => wait_top um bound bound2 isp spec G f s [] 0 d) deps [] [] (set_await st i true)
+                      (fun s d Ms => IH s [] 0 d Ms)
+                      (fun s d Sx => wait_top_sound G um bound bound2 isp spec f s [] 0 d Sx)
+                      (conj Ss Mm) (VNil G)) as Hd.
+        destruct (eval_deps _ deps [] (set_await st i true)) as [vals s2|e s2|] eqn:Ed; simpl; auto.
+        * simpl in Hd. destruct Hd as [Hv [Hs Hm]]. apply K.
+          -- split; [|exact Hm]. intros k v Hk. unfold get_settled, set_settled in Hk. simpl in Hk.
+             destruct (nth_set_nth_cases (settled s2) i k (Some (g vals)) None) as [[E1 E2]|E2]; rewrite E2 in Hk.
+             ++ inversion Hk; subst. exists deps, g, vals. auto.
+             ++ apply Hs. exact Hk.
+          -- intros j E. eapply Kfn; eauto.
+        * assert (NV : e = ENotReady -> forall z, ~ value_of G i z).
+          { intros -> z Hz. destruct Hd as [[d [I1 I2]] _].
+            inversion Hz; subst; try congruence;
+              assert (deps0 = deps) by congruence; subst;
+              destruct (values_of_In _ _ d H0 I1) as [zd Hzd]; exact (I2 zd Hzd). }
+          assert (MS : msafe s2) by (destruct e; [exact Hd|destruct Hd as [_ Hd]; exact Hd|exact Hd]).
+          assert (MS' : msafe (memo_rec um spec e (set_await s2 i false) i)).
+          { destruct MS as [A B]. split; [apply settled_sound_memo_rec; exact A|apply memo_novalue_rec; [exact B|exact NV]]. }
+          destruct e; simpl; auto.
+    - assert (NV : forall z, ~ value_of G i z) by (intros z Hz; inversion Hz; congruence).
+      assert (MS' : forall e, msafe (memo_rec um spec e (set_await (set_await st i true) i false) i)).
+      { intros e. split; [apply settled_sound_memo_rec; exact Ss|apply memo_novalue_rec; [exact Mm|intros _; exact NV]]. }
+      destruct spec; simpl; auto.
+  Qed.
+End MemoSafe.
+
+(* the safety of the memo in one statement: inside one speculation (memo empty at its start, settled table sound),
+   if the memoised evaluation of i says NotReadyError -- because of a memo hit or otherwise -- then i has no value
+   at all, so no evaluation of i, with or without the memo, speculative or real, from any sound state, can return one *)
+Theorem memo_never_hides_a_value G bound bound2 isp fuel st i st' :
+  settled_sound G st ->
+  wait true bound bound2 isp true G fuel (clear_memo st) i = RRaise ENotReady st' ->
+  (forall z, ~ value_of G i z) /\
+  (forall um' b1 b2 isp' spec' fuel' s seen p z s', settled_sound G s ->
+     wait_top um' b1 b2 isp' spec' G fuel' s seen p i <> RVal z s').
+Proof.
+  intros Ss H.
+  assert (M : msafe G (clear_memo st)).
+  { split; [exact Ss|]. intros k Hk. exfalso. unfold is_memo, clear_memo in Hk. simpl in Hk.
+    revert k Hk. generalize (memo st) as l. induction l as [|x xs IHl]; intros [|k] Hk; simpl in Hk; try discriminate. eauto. }
+  pose proof (wait_top_nr G true bound bound2 isp true fuel (clear_memo st) [] 0 i M) as R.
+  unfold wait in H. rewrite H in R. simpl in R. destruct R as [NV _].
+  split; [exact NV|].
+  intros um' b1 b2 isp' spec' fuel' s seen p z s' Sx E.
+  pose proof (wait_top_sound G um' b1 b2 isp' spec' fuel' s seen p i Sx) as S. rewrite E in S. simpl in S.
+  destruct S as [S _]. exact (NV z S).
+Qed.
